@@ -26,7 +26,8 @@ EXPLANATION = (
     "evaluated in the exponent domain for n = 0..64, yields exactly n factors; (D5) simplify groups terms by their "
     "operator part only, sums all coefficients of a group, keeps the group's operators and drops a group only on an "
     "is-close-to-zero test; (D6) sum equality is order-insensitive, term equality compares coefficient and operators, "
-    "no tolerance looser than 1e-8 is spelled; (D7) no arithmetic operation writes through self/other (effect analysis)."
+    "no tolerance looser than 1e-8 is spelled; (D7) no arithmetic operation writes through self/other (effect analysis). "
+    "(D2p) per-qubit phases read from COEFF_MAP inside a loop are multiplied into the running coefficient, never assigned over it."
 )
 RULE_TEXT = "instances = 6 ordered operator pairs x {operator, phase}, 3 key-collision checks, multiplication dataflow obligations, (class, dunder, return path) linear forms, 65 exponents, simplify obligations, equality/tolerance sites, purity per (method, parameter)"
 ASSUMPTIONS = [
